@@ -290,6 +290,16 @@ func main() {
 			}
 		}
 	}
+	// chains with a cross-certified intermediate / a repeated leaf through the base case and the detach path
+	for _, chain := range []string{"cross", "repeated"} {
+		for _, k := range []string{"rsaA", "p256A"} {
+			for _, stamp := range []string{"none", "rfc3161"} {
+				for _, after := range []string{"", "detach"} {
+					built = append(built, builtCase{Key: k, Hash: "sha256", Content: "data", Attrs: "time", Stamp: stamp, TSA: "dergen", After: after, Chain: chain})
+				}
+			}
+		}
+	}
 	// every authority token shape (singles + pairs of the family dimensions that
 	// apply to a token, plus ESS v1) through the base builder case, both OIDs
 	tokDims := []string{"Version", "DigAlgs", "Certs", "CRLs", "Signers", "SID", "Attrs", "SigAlg", "Unsigned"}
